@@ -60,12 +60,16 @@
 (* environment (listenUDP error, a socket on which the QUIC transport      *)
 (* cannot be initialised, route selector error, TLS config without ALPN,   *)
 (* failing dial) are parameters of the actions.  Time is counted in units  *)
-(* U; the GC runs between the instants GcEvery*k - 1 and GcEvery*k.        *)
+(* U and kept relative, so that it is unbounded in a finite model: "phase" *)
+(* is the time modulo the GC interval (the GC runs just before the         *)
+(* instants with phase 0), "unused" of a socket is the number of units     *)
+(* since its count returned to zero (-1: in use or never used), capped at  *)
+(* MaxUnused + 1, from where on the socket is due at the next GC instant.  *)
 (***************************************************************************)
 EXTENDS Integers, FiniteSets, Sequences, TLC
 
 CONSTANTS Reuse,       \* TRUE: reuseport enabled (pool);  FALSE: DisableReuseport (single owner transports)
-          MaxSock, MaxLn, MaxDial, MaxShare, MaxLend, MaxFaults, MaxTime,
+          MaxSock, MaxLn, MaxDial, MaxShare, MaxLend, MaxFaults,
           Protos, Assocs, LAddrs, UIPs, DialKinds, Faults,
           GcEvery, MaxUnused
 
@@ -88,7 +92,7 @@ Init == /\ st = [n |-> 0, socks |-> [s \in 1..MaxSock |-> NoSock], ql |-> [s \in
                  lns |-> [l \in 1..MaxLn |-> NoLn], nl |-> 0,
                  dials |-> [d \in 1..MaxDial |-> NoDial], nd |-> 0,
                  shares |-> [k \in 1..MaxShare |-> NoShare], nk |-> 0, nlend |-> 0,
-                 routes |-> FALSE, now |-> 0, nf |-> 0, cmClosed |-> FALSE]
+                 routes |-> FALSE, phase |-> 0, nf |-> 0, cmClosed |-> FALSE]
         /\ op = [name |-> "init"]
 
 Ids == 1..st.n
@@ -106,9 +110,9 @@ Conflict(a) == a.port # 0 /\ \E s \in Ids : /\ ~st.socks[s].closed
 FaultOk(f) == f = "ok" \/ (f \in Faults /\ st.nf < MaxFaults)
 Nf(f) == IF f = "ok" THEN st.nf ELSE st.nf + 1
 
-\* DecreaseCount on socket record k at time t
+\* DecreaseCount on socket record k (t is unused: the age of a socket that just became unused is 0)
 Dec(k, t) == IF Reuse
-             THEN [k EXCEPT !.ref = k.ref - 1, !.unused = IF k.ref - 1 = 0 THEN t ELSE k.unused]
+             THEN [k EXCEPT !.ref = k.ref - 1, !.unused = IF k.ref - 1 = 0 THEN 0 ELSE k.unused]
              ELSE [k EXCEPT !.ref = 0, !.closed = TRUE]          \* single owner: the owner is done
 Inc(k) == [k EXCEPT !.ref = k.ref + 1, !.unused = -1]
 
@@ -139,11 +143,11 @@ ListenOn(a, p, as, f, s, socks2, routes2, n2) ==
   IF socks2[s].bad
   THEN \* quic Listen fails: the reference is given back (Q4)
        ListenErr(a, p, as, f, "listenfail",
-                 [st EXCEPT !.n = n2, !.socks = [socks2 EXCEPT ![s] = Dec(socks2[s], st.now)], !.routes = routes2, !.nf = Nf(f)])
+                 [st EXCEPT !.n = n2, !.socks = [socks2 EXCEPT ![s] = Dec(socks2[s], 0)], !.routes = routes2, !.nf = Nf(f)])
   ELSE IF f = "noalpn"
   THEN \* quicListener.Add refuses; the fresh shared listener is closed again, its accept loop gives the reference back
        ListenErr(a, p, as, f, "noalpn",
-                 [st EXCEPT !.n = n2, !.socks = [socks2 EXCEPT ![s] = Dec(socks2[s], st.now)], !.routes = routes2, !.nf = Nf(f)])
+                 [st EXCEPT !.n = n2, !.socks = [socks2 EXCEPT ![s] = Dec(socks2[s], 0)], !.routes = routes2, !.nf = Nf(f)])
   ELSE ListenOk(a, p, as, f, s, socks2, routes2, n2)
 
 Listen(a, p, as, f) ==
@@ -189,8 +193,8 @@ CloseListener(l) ==
      ELSE LET s == st.lns[l].sock
               rc2 == st.ql[s].rc - 1
               \* after ConnManager.Close the transport is closed already: the count no longer matters
-              k2 == IF rc2 = 0 /\ ~st.cmClosed THEN Dec(st.socks[s], st.now) ELSE st.socks[s]
-          IN st' = [st EXCEPT !.lns[l].st = "closed",
+              k2 == IF rc2 = 0 /\ ~st.cmClosed THEN Dec(st.socks[s], 0) ELSE st.socks[s]
+          IN st' = [st EXCEPT !.lns[l] = [NoLn EXCEPT !.st = "closed"],
                               !.ql[s] = IF rc2 = 0 THEN NoQl ELSE [rc |-> rc2, protos |-> [st.ql[s].protos EXCEPT ![st.lns[l].proto] = 0]],
                               !.socks[s] = k2]
   /\ op' = [name |-> "closeln", ln |-> l, again |-> st.lns[l].st = "closed"]
@@ -217,8 +221,8 @@ DialChoice(src, as) ==
 DialFinish(d, f, out, s, socks2, n2) ==
   LET fails == st.dials[d].kind = "dq" /\ (out = "fail" \/ socks2[s].bad) IN
   /\ st' = [st EXCEPT !.n = n2, !.nf = Nf(f),
-                      !.socks = IF fails THEN [socks2 EXCEPT ![s] = Dec(socks2[s], st.now)] ELSE socks2,
-                      !.dials[d].st = IF fails THEN "done" ELSE "held", !.dials[d].sock = s]
+                      !.socks = IF fails THEN [socks2 EXCEPT ![s] = Dec(socks2[s], 0)] ELSE socks2,
+                      !.dials[d] = IF fails THEN [NoDial EXCEPT !.st = "done"] ELSE [st.dials[d] EXCEPT !.st = "held", !.sock = s, !.src = None, !.routed = FALSE]]
   /\ op' = [name |-> "dialend", d |-> d, fault |-> f, out |-> IF fails THEN "fail" ELSE "ok", ok |-> ~fails, sock |-> s,
             err |-> IF fails THEN "dialfail" ELSE None]
 
@@ -230,7 +234,7 @@ DialEnd(d, f, out) ==
      THEN /\ f = "ok"
           /\ \E s \in ch : DialFinish(d, f, out, s, [st.socks EXCEPT ![s] = Inc(st.socks[s])], st.n)
      ELSE IF f = "oserr"
-     THEN /\ st' = [st EXCEPT !.nf = Nf(f), !.dials[d].st = "done"]
+     THEN /\ st' = [st EXCEPT !.nf = Nf(f), !.dials[d] = [NoDial EXCEPT !.st = "done"]]
           /\ op' = [name |-> "dialend", d |-> d, fault |-> f, out |-> "fail", ok |-> FALSE, sock |-> 0, err |-> "oserr"]
      ELSE /\ st.n < MaxSock /\ f \in {"ok", "bad"}
           /\ LET s == st.n + 1
@@ -241,7 +245,7 @@ DialEnd(d, f, out) ==
 Release(d) ==
   /\ st.dials[d].st = "held"
   /\ LET s == st.dials[d].sock IN
-     st' = [st EXCEPT !.dials[d].st = "done", !.socks[s] = IF st.cmClosed THEN st.socks[s] ELSE Dec(st.socks[s], st.now)]
+     st' = [st EXCEPT !.dials[d] = [NoDial EXCEPT !.st = "done"], !.socks[s] = IF st.cmClosed THEN st.socks[s] ELSE Dec(st.socks[s], 0)]
   /\ op' = [name |-> "release", d |-> d, kind |-> st.dials[d].kind, sock |-> st.dials[d].sock]
 
 (***************************************************************************)
@@ -261,7 +265,7 @@ Share(a) ==
 CloseShare(k) ==
   /\ st.shares[k].st = "open"
   /\ LET s == st.shares[k].sock IN
-     st' = [st EXCEPT !.shares[k].st = "closed", !.socks[s] = IF st.cmClosed THEN st.socks[s] ELSE Dec(st.socks[s], st.now)]
+     st' = [st EXCEPT !.shares[k] = [NoShare EXCEPT !.st = "closed"], !.socks[s] = IF st.cmClosed THEN st.socks[s] ELSE Dec(st.socks[s], 0)]
   /\ op' = [name |-> "closeshare", k |-> k, sock |-> st.shares[k].sock]
 
 (***************************************************************************)
@@ -279,21 +283,22 @@ Lend(port) ==
 (* Time: one unit passes; between the instants GcEvery*k-1 and GcEvery*k   *)
 (* the garbage collector sweeps the pool                                   *)
 (***************************************************************************)
-Due(k, t) == k.unused >= 0 /\ k.unused + MaxUnused < t
+Cap == MaxUnused + 1
+Due(k) == k.unused > MaxUnused
+Aged(k) == IF k.unused >= 0 /\ k.unused < Cap THEN [k EXCEPT !.unused = k.unused + 1] ELSE k
 Tick ==
-  /\ st.now < MaxTime
-  /\ LET t == st.now + 1
-         gc == Reuse /\ ~st.cmClosed /\ t % GcEvery = 0
-         coll == IF gc THEN {s \in Ids : Pooled(s) /\ Due(st.socks[s], t)} ELSE {}
-         socks2 == [s \in 1..MaxSock |->
-                      IF s \in coll
-                      THEN [st.socks[s] EXCEPT !.pool = "X", !.closed = ~st.socks[s].lent, !.done = st.socks[s].lent]
-                      ELSE st.socks[s]]
-         emptied == {ip \in UIPs : UnicastOf(ip) # {} /\ UnicastOf(ip) \subseteq coll}
-         leftU == {s \in Ids : st.socks[s].pool = "U"} \ coll
-         routes2 == IF emptied = {} THEN st.routes ELSE leftU # {}
-     IN /\ st' = [st EXCEPT !.now = t, !.socks = socks2, !.routes = routes2]
-        /\ op' = [name |-> "tick", now |-> t, gc |-> gc, collected |-> coll]
+  LET ph == (st.phase + 1) % GcEvery
+      gc == Reuse /\ ~st.cmClosed /\ ph = 0
+      coll == IF gc THEN {s \in Ids : Pooled(s) /\ Due(Aged(st.socks[s]))} ELSE {}
+      socks2 == [s \in 1..MaxSock |->
+                   IF s \in coll
+                   THEN [Aged(st.socks[s]) EXCEPT !.pool = "X", !.closed = ~st.socks[s].lent, !.done = st.socks[s].lent, !.unused = -1]
+                   ELSE IF s \in Ids /\ Pooled(s) /\ ~st.cmClosed THEN Aged(st.socks[s]) ELSE st.socks[s]]
+      emptied == {ip \in UIPs : UnicastOf(ip) # {} /\ UnicastOf(ip) \subseteq coll}
+      leftU == {s \in Ids : st.socks[s].pool = "U"} \ coll
+      routes2 == IF emptied = {} THEN st.routes ELSE leftU # {}
+  IN /\ st' = [st EXCEPT !.phase = ph, !.socks = socks2, !.routes = routes2]
+     /\ op' = [name |-> "tick", gc |-> gc, collected |-> coll]
 
 (***************************************************************************)
 (* ConnManager.Close                                                       *)
@@ -325,7 +330,7 @@ Spec == Init /\ [][Next]_vars
 (***************************************************************************)
 (* The clauses                                                             *)
 (***************************************************************************)
-TypeOK == /\ st.n \in 0..MaxSock /\ st.now \in 0..MaxTime
+TypeOK == /\ st.n \in 0..MaxSock /\ st.phase \in 0..(GcEvery - 1)
           /\ \A s \in 1..MaxSock : s > st.n => st.socks[s] = NoSock
 
 \* Q1: never closed, never dropped from the pool, while in use
@@ -342,13 +347,14 @@ CountIsUsers == ~st.cmClosed => \A s \in Ids : (Reuse /\ Pooled(s)) =>
 ClosedOnlyAfterPeriod ==
   [][\A s \in 1..MaxSock :
         (Reuse /\ ~st'.cmClosed /\ (st'.socks[s].closed \/ st'.socks[s].done) /\ ~(st.socks[s].closed \/ st.socks[s].done))
-        => /\ st'.now % GcEvery = 0 /\ st'.now = st.now + 1
-           /\ st.socks[s].unused >= 0 /\ st.socks[s].unused + MaxUnused < st'.now
+        => /\ op'.name = "tick" /\ st'.phase = 0
+           /\ st.socks[s].unused >= MaxUnused          \* more than MaxUnused at the GC instant
            /\ Users(s) = 0]_vars
 
 \* Q4: no pooled socket survives a GC instant at which it was due
-LastGc == (st.now \div GcEvery) * GcEvery
-ClosedWhenDue == (Reuse /\ ~st.cmClosed) => \A s \in Ids : Pooled(s) => ~Due(st.socks[s], LastGc)
+\* (phase p: the last GC instant was p units ago; a socket whose age then exceeded MaxUnused would have been collected)
+ClosedWhenDue == (Reuse /\ ~st.cmClosed) => \A s \in Ids : Pooled(s) =>
+                     ~(st.socks[s].unused >= 0 /\ st.socks[s].unused - st.phase > MaxUnused)
 \* ... and everything without users is on its way out: unused is set (Q2) - together: closed at the first GC instant
 \* that is more than MaxUnused after the last user left.
 
